@@ -175,6 +175,13 @@ Theorem C11_expired_keys_accept_nothing : forall st p x e,
 Proof. exact expired_keys_accept_nothing. Qed.
 Print Assumptions C11_expired_keys_accept_nothing.
 
+(* Timestamps: seconds first, nanoseconds second; with C11_forged_initiation_rejected an initiation from an
+   earlier second than the last consumed one is rejected even if its nanosecond part is larger. *)
+Theorem C11_timestamp_order : forall s1 n1 s2 n2, n1 < 1000000000 -> n2 < 1000000000 ->
+  (s1 * 1000000000 + n1 < s2 * 1000000000 + n2 <-> s1 < s2 \/ (s1 = s2 /\ n1 < n2)).
+Proof. exact timestamp_order. Qed.
+Print Assumptions C11_timestamp_order.
+
 (* Non-vacuity: peer 2 configured at (1,5555).  A fresh initiation from (4,5555) moves it and is
    answered there; its replay from (7,1) does nothing; a batch [bad tag from (5,1); counter 0 from
    (6,2); counter 1 from (3,9); counter 0 again from (8,8)] leaves (3,9); UAPI sets (9,9);
